@@ -22,6 +22,7 @@ def templates(tier, seed=0):
                'assume': lambda v: [v['h0'] >= 0, v['h0'] < len(builds)]})
     # aliased children print like copies
     ts.append({'name': 'aliasing', 'src': 'c := [@h10@, "t"]\na := [c, c, {"k": c}]\nb := [[@h10@, "t"], [@h10@, "t"], {"k": [@h10@, "t"]}]\nprint(a)\nprint(b)\nprint(a == b)\n'})
+    ts.append({'name': 'aliasing-objects', 'src': 'shared := {"k": [@h10@]}\naliased := {"a": [shared], "b": [shared], "c": shared}\ncopies := {"a": [{"k": [@h10@]}], "b": [{"k": [@h10@]}], "c": {"k": [@h10@]}}\nprint(aliased)\nprint(copies)\nprint(aliased == copies)\nl := [shared, [shared, shared], {"x": shared}]\nprint(l)\nprint(shared)\nprint(l)\n'})
     # scalars and empties
     ts.append({'name': 'scalars', 'src': 'print(null)\nprint(@b0@)\nprint(@h0@)\nprint("")\nprint("raw \\"q\\" \\\\ text")\nprint([])\nprint({})\nprint([[]])\nprint({"": {}})\nprint([null, true, -1, "s"])\nprint(print(1))\n'})
     # hash iteration order never shows: collect of the remaining keys, duplicate-name bookkeeping
